@@ -166,31 +166,49 @@ def run(ctx):
                     ctx.case(key=(name, n, r, prof), nontrivial=r >= 2)
                     ok = F.is_wellformed(Y, n) and [G.shape for G in Y] == shapes
                     msg = 'shapes %s, specification %s' % ([G.shape for G in Y] if isinstance(Y, list) else Y, shapes)
+                    # The generator protocol (which Generator method is called, with which arguments) is observed through the
+                    # auditing generator.  If it is the expected one the check is exact (every drawn number lands in exactly
+                    # one position); another way of drawing is not a violation: the range / distribution clauses are then
+                    # judged on the values alone.
+                    proto = {'rand': 'uniform', 'rand_norm': 'normal', 'rand_stab': 'normal'}.get(name)
+                    bound = proto is not None and len(g.log) > 0 and all(l['fn'] == proto for l in g.log)
                     if ok and name == 'rand':
-                        tot = sum(int(np.prod(l['size'])) for l in g.log if l['fn'] == 'uniform')
-                        ok = all(l['fn'] == 'uniform' and l['low'] == -2. and l['high'] == 5. for l in g.log) and tot == e['total'] \
-                            and all(G.min() >= -2. and G.max() <= 5. for G in Y)
-                        msg = 'uniform draws %s (total %d, specification %d)' % ([(l['fn'], l.get('low'), l.get('high')) for l in g.log][:3], tot, e['total'])
-                        # every drawn number lands in exactly one core position
-                        drawn = np.sort(np.concatenate([np.ravel(l['out']) for l in g.log]))
-                        ok = ok and np.array_equal(drawn, np.sort(np.concatenate([G.ravel() for G in Y])))
+                        ok = all(G.min() >= -2. and G.max() <= 5. for G in Y)
+                        msg = 'entries outside the requested range [-2, 5]'
+                        if ok and bound:
+                            tot = sum(int(np.prod(l['size'])) for l in g.log)
+                            ok = all(l['low'] == -2. and l['high'] == 5. for l in g.log) and tot == e['total']
+                            msg = 'uniform draws %s (total %d, specification %d)' % ([(l['fn'], l.get('low'), l.get('high')) for l in g.log][:3], tot, e['total'])
+                            drawn = np.sort(np.concatenate([np.ravel(l['out']) for l in g.log]))
+                            ok = ok and np.array_equal(drawn, np.sort(np.concatenate([G.ravel() for G in Y])))
                     if ok and name == 'rand_norm':
-                        tot = sum(int(np.prod(l['size'])) for l in g.log if l['fn'] == 'normal')
-                        ok = all(l['fn'] == 'normal' and l['loc'] == 3. and l['scale'] == 0.5 for l in g.log) and tot == e['total']
-                        drawn = np.sort(np.concatenate([np.ravel(l['out']) for l in g.log]))
-                        ok = ok and np.array_equal(drawn, np.sort(np.concatenate([G.ravel() for G in Y])))
-                        msg = 'normal draws wrong'
+                        allv = np.concatenate([G.ravel() for G in Y])
+                        ok = bool(np.abs(allv - 3.).max() <= 0.5 * 8)              # 8 standard deviations
+                        msg = 'entries further than 8 sigma from the requested mean'
+                        if ok and bound:
+                            tot = sum(int(np.prod(l['size'])) for l in g.log)
+                            ok = all(l['loc'] == 3. and l['scale'] == 0.5 for l in g.log) and tot == e['total']
+                            drawn = np.sort(np.concatenate([np.ravel(l['out']) for l in g.log]))
+                            ok = ok and np.array_equal(drawn, np.sort(allv))
+                            msg = 'normal draws wrong'
                     if ok and name == 'rand_stab':
-                        ok = np.abs(F.dense(Y) - 1.).max() <= 1e-3 * 50 * len(n) * r and all(l['fn'] == 'normal' and l['scale'] == 1e-3 for l in g.log)
-                        # "ones perturbed by the requested noise": every core is the identity pattern plus the drawn numbers, each
-                        # drawn number in exactly one position (in particular the diagonal carries noise too)
-                        resid = np.sort(np.concatenate([(G - np.eye(G.shape[0], G.shape[2])[:, None, :]).ravel() for G in Y]))
-                        drawn = np.sort(np.concatenate([np.ravel(l['out']) for l in g.log]))
-                        ok = ok and resid.shape == drawn.shape and np.abs(resid - drawn).max() <= 4e-16
+                        ok = np.abs(F.dense(Y) - 1.).max() <= 1e-3 * 50 * len(n) * r
                         # noise = 0 gives exactly the all-ones tensor
                         Y0 = teneva.rand_stab(n, rr, noise=0., seed=1)
                         ok = ok and np.array_equal(F.dense(Y0), np.ones(n))
                         msg = 'rand_stab is not ones + noise'
+                        resid_cores = [(G - np.eye(G.shape[0], G.shape[2])[:, None, :]) for G in Y]
+                        if ok and bound:
+                            # "ones perturbed by the requested noise": every core is the identity pattern plus the drawn numbers,
+                            # each drawn number in exactly one position (in particular the diagonal carries noise too)
+                            resid = np.sort(np.concatenate([Rc.ravel() for Rc in resid_cores]))
+                            drawn = np.sort(np.concatenate([np.ravel(l['out']) for l in g.log]))
+                            ok = all(l['scale'] == 1e-3 for l in g.log) and resid.shape == drawn.shape and np.abs(resid - drawn).max() <= 4e-16
+                        elif ok:
+                            diag = np.concatenate([np.array([Rc[q_, :, q_] for q_ in range(min(Rc.shape[0], Rc.shape[2]))]).ravel() for Rc in resid_cores])
+                            allr = np.concatenate([Rc.ravel() for Rc in resid_cores])
+                            ok = np.abs(allr).max() <= 8e-3 and (len(diag) < 8 or np.std(diag) >= 1e-4) and (len(allr) < 8 or np.std(allr) >= 1e-4)
+                            msg = 'rand_stab: perturbation of the identity pattern is not of the requested size 1e-3'
                     if ok and name == 'rand_custom':
                         ok = seen == [e['total']] and np.array_equal(np.sort(np.concatenate([G.ravel() for G in Y])), np.arange(1, e['total'] + 1, dtype=float))
                         msg = 'rand_custom asked for %s numbers, specification %s, or does not place each exactly once' % (seen, e['total'])
